@@ -596,18 +596,37 @@ theorem ncollpyde_scipy_answers_current {G : Type} (gs : List G) (ops : List (Op
     ∀ ans ∈ (exec Navis.Gen.VolCache.spec (gs.map Obj.fresh) ops).2, ans.used = ans.current :=
   covered_backends_always_current _ _ ncollpyde_scipy_cache_covered gs ops hq hm
 
+/-- **Tie to the source (translator), all back-ends.**  No back-end of the current source re-uses a structure stored on the
+Volume object without looking at the current mesh in a way some listed mutator could outdate: every listed in-place mutator
+(own and inherited, including the array write `vol.vertices *= k`) deletes every such attribute.  (Today: there is none — the
+`pyoctree` octree is compared with the current mesh before it is re-used, see `Gen.VolCache.keyedAttrs`.) -/
+theorem all_backends_cache_covered :
+    Navis.VolCache.coversB Navis.Gen.VolCache.spec (Navis.Gen.VolCache.spec.backends.map (·.name)) = true := by decide
+
+open Navis.VolCache in
+/-- **Every back-end answers for the current mesh, for every history** (the full statement; before fix d29361d only
+`all_backends_current_under_clearing_mutators` held for `pyoctree`): queries by any back-end of the source and any ray count,
+listed in-place mutators, copies, `vol * k`, `resize`, pickling, on any number of Volume objects created fresh. -/
+theorem every_backend_answers_current {G : Type} (gs : List G) (ops : List (Op G))
+    (hq : ∀ i b r, Op.query i b r ∈ ops → b ∈ Navis.Gen.VolCache.spec.backends.map (·.name))
+    (hm : ∀ i m f, Op.mutate i m f ∈ ops → m ∈ Navis.Gen.VolCache.spec.mutatorNames) :
+    ∀ ans ∈ (exec Navis.Gen.VolCache.spec (gs.map Obj.fresh) ops).2, ans.used = ans.current :=
+  covered_backends_always_current _ _ all_backends_cache_covered gs ops hq hm
+
+example : Navis.Gen.VolCache.spec.backends.map (·.name) = ["ncollpyde", "pyoctree", "scipy"] := by decide
+
 /-- the mutators the histories of the harness use are all listed -/
 example : ∀ m ∈ ["apply_translation", "apply_transform", "apply_scale", "vertices.setter", "faces.setter", "verts.setter",
     "vertices[in-place-array-op]", "resize"], m ∈ Navis.Gen.VolCache.spec.mutatorNames := by decide
 
 open Navis.VolCache in
-/-- **All back-ends, clearing mutators only — partial.**  Full statement wanted by the property text: *for every history and
-every back-end the answer is computed from the current geometry.*  That is false for a back-end that keeps its structure on
-the object under an attribute some mutator does not delete (`stale_history_of_uncovered`; in the current source: the
-`pyoctree` back-end with every mutator other than `Volume.resize`, see `pyoctree_style_cache_goes_stale`).  Proved here, for
-every spec: histories whose in-place mutators all belong to `clearingMutators s` (they delete the cache attribute of every
-back-end) answer every query — by any back-end — from the current geometry. -/
-theorem all_backends_current_under_clearing_mutators_partial {G : Type} (s : Spec) (gs : List G) (ops : List (Op G))
+/-- **All back-ends under clearing mutators** (for every spec): histories whose in-place mutators all belong to
+`clearingMutators s` (they delete the cache attribute of every back-end that keeps one unconditionally) answer every query —
+by any back-end — from the current geometry.  (Until fix d29361d this was all that held for the `pyoctree` back-end of the
+source: its octree was re-used by attribute name alone and only `Volume.resize` deleted it — `pyoctree_style_cache_goes_stale`.
+Since the fix the octree is re-used only after comparing the mesh it was built from with the current one, and the full
+statement `every_backend_answers_current` holds.) -/
+theorem all_backends_current_under_clearing_mutators {G : Type} (s : Spec) (gs : List G) (ops : List (Op G))
     (hm : ∀ i m f, Op.mutate i m f ∈ ops → m ∈ clearingMutators s) :
     ∀ ans ∈ (exec s (gs.map Obj.fresh) ops).2, ans.used = ans.current := by
   refine cached_structure_answers_current s (s.backends.filterMap (·.attr)) _ ops ?_ ?_ ?_
@@ -624,14 +643,15 @@ every back-end (dropping the `delattr` in `resize`, or renaming the attribute on
 theorem volume_resize_clears_every_cache : "resize" ∈ Navis.VolCache.clearingMutators Navis.Gen.VolCache.spec := by decide
 
 open Navis.VolCache in
-/-- the cache protocol of the source at the time of writing, as a literal (NOT the generated spec: this counter-example
-documents the open finding and must not stop checking when navis repairs it) -/
+/-- the cache protocol of the source BEFORE fix d29361d, as a literal (historical; the generated spec no longer has a
+`pyoctree` attribute re-used unconditionally) -/
 def pyocSpec : Spec :=
   { backends := [⟨"ncollpyde", none, false⟩, ⟨"pyoctree", some "pyoctree", false⟩, ⟨"scipy", none, false⟩],
     mutators := [⟨"resize", ["pyoctree"]⟩, ⟨"apply_translation", []⟩], pickleDrops := [] }
 
 open Navis.VolCache in
-/-- **Counter-example to the full statement (open finding).**  With the `pyoctree` back-end: query, `apply_translation`
+/-- **Historical counter-example (the defect repaired by fix d29361d; what an octree re-used by attribute name alone does).**
+With the `pyoctree` back-end of `pyocSpec`: query, `apply_translation`
 (geometry 0 ↦ 1), query again — the second answer is computed from geometry 0; after `resize` (1 ↦ 2) the answer is current
 again; a pickled copy carries the structure along, a `copy()` does not. -/
 theorem pyoctree_style_cache_goes_stale :
@@ -714,9 +734,27 @@ theorem rays_as_requested (d : Nat) :
   · intro n hn
     simp [effRays, hn]
 
-/-- **`intersection_matrix` with a *list* of volumes — counter-example to "every volume is answered under its own name"
-(open finding).**  The list is turned into `{v.name: v for v in volumes}` without the duplicate check `in_volume` makes
-(`volumes_list`): of two volumes with the same name only the last one is answered — in the position of the first. -/
+/-- **`intersection_matrix` with a *list* of volumes.**  Distinct names: exactly the matrix of the dict with those names (every
+volume answered under its own name, `intersection_matrix_cell`); a duplicated name is refused (navis raises `ValueError`, as
+`in_volume` does for a list — since fix 5cc1939) instead of silently dropping a volume. -/
+theorem intersection_matrix_list {σ β : Type} (inside : σ → Inside) (attr : Tree → β) (mode : Mode)
+    (vols : List (String × σ)) (ts : List Tree) :
+    ((vols.map (·.1)).Nodup →
+      intersectionMatrixList inside attr mode vols ts = some (intersectionMatrix inside attr mode vols ts)
+      ∧ ∀ k S, (k, S) ∈ vols → dget (intersectionMatrix inside attr mode vols ts) k
+          = some (ts.map fun t => attr (inVolumeTree (inside S) mode t)))
+    ∧ (¬ (vols.map (·.1)).Nodup → intersectionMatrixList inside attr mode vols ts = none) := by
+  constructor
+  · intro h
+    refine ⟨?_, fun k S hm => intersection_matrix_cell inside attr mode vols h ts k S hm⟩
+    unfold intersectionMatrixList
+    rw [if_pos h, mkDict_eq_self vols h]
+  · intro h
+    unfold intersectionMatrixList
+    rw [if_neg h]
+
+/-- **Historical (the defect repaired by fix 5cc1939): what building the dict without the check did.**  Of two volumes with
+the same name only the last one was answered — in the position of the first; the list form now returns `none` here. -/
 theorem intersection_matrix_list_drops_duplicate_name :
     intersectionMatrix mem (fun t => t.nodes.length) .IN
         (mkDict [("LH", exCube), ("MB", exBar), ("LH", exL)]) [exTree]
